@@ -88,6 +88,9 @@ Calls == {
     [call |-> "ExtrudedRing.chain.length", cond |-> Simple("Positive")],
     [call |-> "LoftedShape.face_counts", cond |-> Count(4)],
     [call |-> "LoftedShape.mid_face_counts", cond |-> Count(4)],
+    \* several mid sketches: each of them has to match, wherever it stands in the list
+    [call |-> "LoftedShape.mid_list_first", cond |-> Count(4)],
+    [call |-> "LoftedShape.mid_list_second", cond |-> Count(4)],
     [call |-> "Angle.angle", cond |-> Simple("OpenAngle")],
     [call |-> "Curve.param", cond |-> Range(0, 3)],
     [call |-> "Frame.add_beam.pair", cond |-> Simple("Exists")],
